@@ -147,9 +147,12 @@ def run_one(slot, rel, text, quals, shapes):
     tgt.write_text(text)
     try:
         env = dict(os.environ, ASPIRE_REPO=str(d), PYVC_WORKERS=os.environ.get("MUTATE_INNER", "4"), PYTHONPATH=f"{ROOT}:{d}/src:{ROOT}/stubs")
-        if shapes:
+        if shapes and str(shapes).isdigit() and int(shapes):
             env["PYVC_FIRST"] = str(shapes)
-        p = subprocess.run([str(ROOT / ".venv/bin/python"), "-m", "pyvc.run"] + quals, env=env, capture_output=True, text=True, cwd=str(ROOT), timeout=1800)
+        elif shapes:
+            env["PYVC_ONLY"] = str(shapes)
+        cmd = [str(ROOT / ".venv/bin/python"), str(ROOT / "tools" / "lean_probe.py")] if os.environ.get("MUTATE_LEAN") else [str(ROOT / ".venv/bin/python"), "-m", "pyvc.run"] + quals
+        p = subprocess.run(cmd, env=env, capture_output=True, text=True, cwd=str(ROOT), timeout=1800)
         out = p.stdout + p.stderr[-500:]
     except subprocess.TimeoutExpired:
         out = "TIMEOUT"
@@ -166,9 +169,13 @@ def main():
     ap.add_argument("--max", type=int, default=0)
     ap.add_argument("--workers", type=int, default=4)
     ap.add_argument("--shapes", type=int, default=0, help="only the first K shapes of each contract (for the very large ones)")
+    ap.add_argument("--lean", action="store_true", help="evaluate mutants with the Lean back end (definitions regenerated by py2lean) instead of the z3 contracts")
+    ap.add_argument("--only", default="", help="comma separated task indices (PYVC_ONLY) instead of the first K")
     ap.add_argument("--extra", default="")
     ap.add_argument("--json", default="")
     a = ap.parse_args()
+    if a.lean:
+        os.environ["MUTATE_LEAN"] = "1"
     shutil.rmtree(SCRATCH, ignore_errors=True)
     for w in range(a.workers):
         (SCRATCH / f"w{w}" / "src").mkdir(parents=True)
@@ -202,7 +209,7 @@ def main():
             def work(job):
                 slot = free.get()
                 try:
-                    return job[0], run_one(slot, rel, job[1], quals, a.shapes)
+                    return job[0], run_one(slot, rel, job[1], quals, a.only or a.shapes)
                 finally:
                     free.put(slot)
             with ThreadPoolExecutor(max_workers=a.workers) as ex:
